@@ -1,8 +1,10 @@
 package props
 
 import (
+	"bytes"
 	"fmt"
 	"html"
+	"regexp"
 	"strings"
 
 	"verif/internal/core"
@@ -66,6 +68,16 @@ func c04Case(s *core.Sub, cv *core.Conv, doc []byte, construct string) []byte {
 		s.Violate("lex:"+lerr.Code, cv.Cfg.String(), doc, nil, lerr.Error(), "", string(out))
 		return out
 	}
+	// a browser ends a comment earlier than at "-->" in three cases ("<!-->", "<!--->", "--!>"): what follows is live markup
+	for _, leaked := range browserCommentLeaks(out) {
+		for _, m := range looseURLAttr.FindAllSubmatch(leaked, -1) {
+			v := strings.Trim(string(m[2]), "\"'")
+			if p := forbiddenURL(browserURL(v)); p != "" {
+				s.Violate(fmt.Sprintf("%s-behind-early-comment-end:%s", strings.TrimSuffix(p, ":"), construct), cv.Cfg.String(), doc, nil,
+					fmt.Sprintf("a browser ends the comment before %q, which carries a %s URL in %s", core.Clip(string(leaked), 80), p, m[1]), "no live markup with such a URL", string(out))
+			}
+		}
+	}
 	for i := range toks {
 		t := &toks[i]
 		if t.Kind != strict.Start {
@@ -82,6 +94,44 @@ func c04Case(s *core.Sub, cv *core.Conv, doc []byte, construct string) []byte {
 		}
 	}
 	return out
+}
+
+var looseURLAttr = regexp.MustCompile(`(?i)(href|src)\s*=\s*("[^"]*"|'[^']*'|[^\s>]+)`)
+
+// browserCommentLeaks returns, for every comment of out that a browser's tokenizer ends before the first "-->", the bytes
+// between the browser's end of the comment and that "-->".
+func browserCommentLeaks(out []byte) [][]byte {
+	var leaks [][]byte
+	for i := 0; ; {
+		k := bytes.Index(out[i:], []byte("<!--"))
+		if k < 0 {
+			return leaks
+		}
+		start := i + k + 4
+		strictEnd := bytes.Index(out[start:], []byte("-->"))
+		if strictEnd < 0 {
+			strictEnd = len(out) - start
+		}
+		body := out[start : start+strictEnd]
+		be := -1
+		switch {
+		case bytes.HasPrefix(out[start:], []byte(">")):
+			be = 1
+		case bytes.HasPrefix(out[start:], []byte("->")):
+			be = 2
+		default:
+			if j := bytes.Index(body, []byte("--!>")); j >= 0 {
+				be = j + 4
+			}
+		}
+		if be >= 0 && be < len(body) {
+			leaks = append(leaks, body[be:])
+		}
+		i = start + strictEnd
+		if i >= len(out) {
+			return leaks
+		}
+	}
 }
 
 type urlConstruct struct {
@@ -389,7 +439,9 @@ func runC04(r *core.Run) {
 	// script URLs arriving as ready-made markup in every sink the renderer writes to: in safe mode the markup must come out
 	// inert, so no href/src with such a URL may exist in the tokenized output (and the output must tokenize at all)
 	{
-		pays := []string{"<a href=\"javascript:alert(1)\">", "<img src=javascript:alert(1)>", "<a href='vbscript:x'>y</a>", "<a\nhref=\"javascript:x\">", "\"><a href=\"javascript:x\">", "<script src=\"file:///x\">"}
+		pays := []string{"<a href=\"javascript:alert(1)\">", "<img src=javascript:alert(1)>", "<a href='vbscript:x'>y</a>", "<a\nhref=\"javascript:x\">", "\"><a href=\"javascript:x\">", "<script src=\"file:///x\">",
+			// the three places where a browser ends a comment before "-->"
+			"x --!><a href=\"javascript:x\">y</a>", "><a href=\"javascript:x\">", "-><img src=javascript:x>"}
 		shapes := []string{"§", "x\n§", "§\nx", "x\n§\ny", "§ §", "x\n§\n§\ny"}
 		for _, cn := range []string{"core", "all+cjk+attr+autoid", "all+attr+autoid+xhtml+hardwraps"} {
 			cfg := core.MustCfg(cn)
